@@ -143,13 +143,15 @@ def r3(ctx):
             g = f.cfg
             loops = [w for w in walk_own(f.node) if isinstance(w, ast.While) and any(isinstance(x, ast.Attribute) and x.attr == "alive" for x in ast.walk(w.test))]
             ctx.need(loops, "C11.R3: no alive loop in %s" % f.qualname)
+            for w in loops:
+                head = [n for n in g.nodes_of(w) if n.kind == "join"][0]
+                notifies = [n for c in method_calls(f, "notify") if tail(c.func.value) == "self" and any(a is w for a in f.module.ancestors(c)) for n in nodes_with(f, c)]
+                body_edges = [(t, "true") for t in g.tests() if t.stmt is w]
+                r = g.reachable(body_edges, without_nodes=notifies, follow_exc=False, stop=lambda n: n is head)
+                ctx.check("C11.R3", bool(notifies) and head not in r, key(f, "notify-every-iteration|%d" % loops.index(w)), site(f, w.test),
+                          "an iteration of an `alive` loop of %s can complete without self.notify(): a healthy worker that stays in this loop (e.g. a never-empty accept backlog) "
+                          "stops beating and is killed for inactivity" % f.short, "notify on every iteration")
             w = loops[0]
-            head = [n for n in g.nodes_of(w) if n.kind == "join"][0]
-            notifies = [n for c in method_calls(f, "notify") if tail(c.func.value) == "self" and any(a is w for a in f.module.ancestors(c)) for n in nodes_with(f, c)]
-            body_edges = [(t, "true") for t in g.tests() if t.stmt is w]
-            r = g.reachable(body_edges, without_nodes=notifies, follow_exc=False, stop=lambda n: n is head)
-            ctx.check("C11.R3", bool(notifies) and head not in r, key(f, "notify-every-iteration"), site(f),
-                      "an iteration of the `alive` loop of %s can complete without self.notify(): a healthy (idle or busy) worker would be killed for inactivity" % f.short, "notify on every iteration")
             # blocking calls in the loop
             for c in [x for x in ast.walk(w) if isinstance(x, ast.Call)]:
                 q = repo.call_target(f.module, f, c) or ""
